@@ -60,7 +60,8 @@ def list_spec(case, version, use_dict, kind):
 
 
 def job(args):
-    jid, cases = args
+    jid, cases = args[0], args[1]
+    only = args[2] if len(args) > 2 else None          # (version, use_dict, kind): one variant only (crash bisection)
     fp = use_repo()
     out = {"jid": jid, "viol": [], "evals": 0, "machinery": 0, "skipped_v2": 0}
     for ci, case in enumerate(cases):
@@ -72,6 +73,8 @@ def job(args):
                 out["skipped_v2"] += 1       # version-2 pages must start on a row boundary: such a layout is not valid
                 continue
             for use_dict, kind in ((False, "int64"), (True, "int64"), (False, "utf8")):
+                if only is not None and (version, use_dict, kind) != tuple(only):
+                    continue
                 try:
                     data = PW.build_file(list_spec(case, version, use_dict, kind))
                     fv = PR.read_file(data, strict=True)
@@ -219,23 +222,61 @@ def _run(ev, work, thorough):
         raise T.TLCError("vacuity: the transcribed mechanism never deviates from the contract")
     if not thorough:
         cases = [c for i, c in enumerate(cases) if i % 3 == 0 or not c["model_ok"]]
-    chunks = [cases[i::64] for i in range(64)]
-    jobs = [(i, c) for i, c in enumerate(chunks) if c]
-    results = pmap(job, jobs, job_timeout=900)
+    # cuts the mechanism model predicts to misplace rows can corrupt memory in the native assembler (no bounds checks):
+    # they run in small batches of their own, so that a crash there cannot hide the cases the model expects to work
+    calm = [c for c in cases if c["model_ok"]]
+    risky = [c for c in cases if not c["model_ok"]]
+    jobs = [(i, calm[i::64]) for i in range(64) if calm[i::64]]
+    nr = max(1, (len(risky) + 24) // 25)
+    rjobs = [(1000 + i, risky[i::nr]) for i in range(nr) if risky[i::nr]]
+    results = pmap(job, jobs + rjobs, job_timeout=900)
+    rresults = results[len(jobs):]
+    results = results[:len(jobs)]
     verd = Verdicts(PID, os.path.join(HOME, "replays"))
     mach = sk = 0
     disagreements = 0
-    for j, r in zip(jobs, results):
-        if isinstance(r, Crashed):
-            verd.add({"what": "interpreter crashed or hung assembling a nested column"}, {"first": j[1][0]})
-            continue
-        if not isinstance(r, dict):
-            raise RuntimeError("machinery failed: %s" % (r,))
+    def collect(r, cs):
+        nonlocal mach, sk
         ev.evaluations += r["evals"]
         mach += r["machinery"]
         sk += r["skipped_v2"]
         for sig, ci in r["viol"]:
-            verd.add(sig, {"case": j[1][ci]}, cost=len(j[1][ci]["stream"]))
+            verd.add(sig, {"case": cs[ci]}, cost=len(cs[ci]["stream"]))
+
+    for j, r in zip(jobs, results):
+        if isinstance(r, Crashed):
+            # a crash takes the whole batch with it: re-run its cases one variant per process
+            singles = [(k, [c], (v, d, kd)) for k, c in enumerate(j[1]) for v in (1, 2)
+                       for d, kd in ((False, "int64"), (True, "int64"), (False, "utf8"))]
+            sres = pmap(job, singles, job_timeout=300)
+            # a single that only timed out (machine under load) gets one more try on its own
+            again = [i for i, sr in enumerate(sres) if isinstance(sr, Crashed) and sr.timed_out]
+            for i in again:
+                sres[i] = pmap(job, [singles[i]], job_timeout=600)[0]
+            for sj, sr in zip(singles, sres):
+                c, (v, d, kd) = sj[1][0], sj[2]
+                if isinstance(sr, Crashed):
+                    inside = any(c["stream"][x]["rep"] != 0 for x in c["cuts"] if x < len(c["stream"]))
+                    if v == 2 and inside:
+                        continue
+                    verd.add({"version": v, "cut_inside_row": inside, "model_predicts_misassembly": not c["model_ok"],
+                              "what": "interpreter crashed or hung assembling a nested column"},
+                             {"case": c, "dictionary": d, "element": kd}, cost=len(c["stream"]))
+                elif isinstance(sr, dict):
+                    collect(sr, sj[1])
+            continue
+        if not isinstance(r, dict):
+            raise RuntimeError("machinery failed: %s" % (r,))
+        collect(r, j[1])
+    for j, r in zip(rjobs, rresults):
+        if isinstance(r, Crashed):
+            verd.add({"version": 1, "cut_inside_row": True, "model_predicts_misassembly": True,
+                      "what": "interpreter crashed or hung assembling a nested column"},
+                     {"batch_of_predicted_misassemblies": len(j[1]), "first": j[1][0]}, cost=len(j[1][0]["stream"]))
+        elif isinstance(r, dict):
+            collect(r, j[1])
+        else:
+            raise RuntimeError("machinery failed: %s" % (r,))
     # ---- MAP columns ----
     mcfg = os.path.join(work, "mapn.cfg")
     mconst = {"MaxRows": 2, "MaxLen": 2, "MaxPages": 2, "MapOptionals": "<- BoolBoth", "ValOptionals": "<- BoolBoth",
